@@ -37,7 +37,7 @@ CELL_KEYS = ["ep", "recv", "r", "L", "ni", "ia", "testing", "fmt", "base", "inp"
 
 BASES = ["std", "empty", "all"]
 INPUTS = ["plain", "kv", "attr"]
-ALL_DIMS = {(f, b, x) for f in FORMATS for b in BASES for x in INPUTS + ["huge"]}
+ALL_DIMS = {(f, b, x) for f in FORMATS for b in BASES for x in INPUTS + ["huge", "nilctx"]}
 
 
 def table_consts(ctx, full=False):
@@ -50,6 +50,7 @@ def table_consts(ctx, full=False):
         levels = {0, 1, 2, 4, 7, 8} | {[3, 5, 6][s % 3], [9, 10, 11, 12][s % 4]}
         dims = {(FORMATS[i], BASES[j], INPUTS[(i + j + s) % 3]) for i in range(3) for j in range(3)}
         dims |= {(FORMATS[i], BASES[(i + s) % 3], "huge") for i in range(3)}       # > 1024 attributes in one call
+        dims |= {(FORMATS[i], BASES[(i + s + 1) % 3], "nilctx") for i in range(3)}   # nil context + registered context keys
         return dict(LoggerLevels=levels, Dims=dims, NegDims={(FORMATS[s % 3], "std", "plain")}, Customs=Fn(CUSTOMS))
     return dict(LoggerLevels=set(range(13)), Dims=ALL_DIMS, NegDims=ALL_DIMS, Customs=Fn(CUSTOMS))
 
